@@ -653,12 +653,13 @@ class Facts:
                     continue
                 a, b = set(e.get("callees", ())), {callee_tag(c.path) for c in f.calls}
                 same_name = P.split("::")[-1] == f.path.split("::")[-1]
+                same_parent = P.rsplit("::", 1)[0] == f.path.rsplit("::", 1)[0]      # renamed inside its impl / module
                 if not a and not b:
                     score = 1.0 if same_name else 0.5
                 else:
                     score = len(a & b) / float(len(a | b))
-                    if same_name:
-                        score = min(1.0, score + 0.3)
+                if same_name or same_parent:
+                    score = min(1.0, score + 0.3)
                 cand.append((score, P, f))
         cand.sort(key=lambda x: -x[0])
         usedP, usedF = set(), set()
